@@ -106,6 +106,14 @@ def build_corpus(tier, rng):
     defs.append((3, Item("E", [Variant("A", "tuple", [Field("std::rc::Rc<u8>")]), Variant("B", "unit"), Variant("C", "named", [Field("std::cell::Cell<u8>", "f")])]), "not-send"))
     defs.append((2, Item("E", [Variant("A", "unit"), Variant("Off", "tuple", [Field("std::rc::Rc<u8>")], [DISABLED]), Variant("B", "tuple", [Field("()"), Field("[u8; 3]"), Field("(u8, bool)")])]), "not-send"))
     defs.append((2, Item("E", [Variant("A", "tuple", [Field("std::cell::Cell<u8>")]), Variant("B", "unit")], cparams=1), "not-send"))
+    # `disabled` written with other attribute delimiters, or handed in as a macro fragment, is still `disabled`
+    for form in ("braces", "brackets", "macro"):
+        it = mk(3, disabled_mask=0b1010, payload=True)
+        if form == "macro":
+            it.via_macro = True
+        else:
+            it.attr_delims = [1] if form == "braces" else [2]
+        defs.append((3, it, "attr-forms"))
     for n, it, fam in defs:
         k = c.add_def(it, family=fam, derives=["EnumIter"], n=n)
         c.add_q(k, "struct", ["EnumIter"], note="structure")
